@@ -227,6 +227,8 @@ def write_evidence(prop, tier, seed, sel, res, cross, violations, inconclusive, 
         if u.name in coverage:
             c = coverage[u.name]
             d['reachability'] = dict(blocks=c.get('blocks'), reached=c.get('blocks_reached'), source_lines_never_reached=c.get('lines_never_reached'))
+        if r.get('reused'):
+            d['reused'] = r['reused']
         if r['status'] == 'inconclusive':
             d['reason'] = r.get('reason', '')[:600]
         if r.get('assume_statements'):
